@@ -20,6 +20,7 @@ import (
 
 type lineCase struct {
 	Src    []string        `json:"src"`
+	Twin   []string        `json:"twin"`
 	PartsR json.RawMessage `json:"parts"`
 	Line   int             `json:"line"`
 	Max    int             `json:"maxline"`
@@ -100,6 +101,20 @@ func c15Run(c *Ctx, raw json.RawMessage) {
 	if lc.Wraps && !o.Wraps {
 		c.Fail("not-wrapped:"+sig, "error does not wrap the helper's error: "+o.Err, cas)
 		return
+	}
+	// the text of a # comment is layout: with every comment blanked (line breaks kept) the same line is named
+	if len(lc.Twin) > 0 {
+		tsrc := decodeChars(lc.Twin)
+		tv := runSem(sc, tsrc, false)
+		tm := reLine.FindStringSubmatchIndex(tv.Obs.Err)
+		if !tv.Obs.IsErr || tm == nil || tm[0] != 0 {
+			c.Fail("comment-twin:no-line:"+sig, fmt.Sprintf("%q (the template %q with its comments blanked): %+v", tsrc, src, tv.Obs), cas)
+			return
+		}
+		if tgot, _ := strconv.Atoi(tv.Obs.Err[tm[2]:tm[3]]); tgot != got {
+			c.Fail("comment-moves-line:"+sig, fmt.Sprintf("%q names line %d, but with the comment text removed (%q) line %d", src, got, tsrc, tgot), cas)
+			return
+		}
 	}
 	// shifting
 	for _, k := range []int{1, 2, 7, 100} {
